@@ -42,6 +42,8 @@ def run(ctx):
                       "interpretation on every non-empty event subset of a two-parameter source with three links (exhaustive for that configuration)", floor=1)
     ctx.rule("R08.f", "the update context manager relinks on exit: Parameters.update, interpreted abstractly on six call forms (keywords / dict / dict+keywords / pairs / pairs+keywords), "
                       "hands the restorer the stored reference of every given parameter that has a link or a pending asynchronous reference", floor=1)
+    ctx.rule("R08.g", "param's own write-backs never end a link: every update()/_update() call made by the library on a parameter namespace (other than forwarding the caller's own arguments) "
+                      "is inside `with _syncing(...)`, or hands the saved references back (**refs), or is on the class-level branch (classes hold no links)", floor=5)
     ctx.rule("R08.m", "setter model: Parameter.__set__ interpreted abstractly on every combination (576) of route x constant/readonly x validation outcome x identity x reference mode x watchers x batching agrees with the specification of this property (see checks/setter_model.py)", floor=1)
     ctx.not_decided += ["that the parameter equals the reference's resolved value after arbitrary source histories (needs execution)"]
 
@@ -304,6 +306,35 @@ def run(ctx):
 
     from checks.shared import syncing_set_replaced
     syncing_set_replaced(ctx, "R08.c")
+    # ------------------------------------------------------------- R08.g
+    from engine.effects import walk_stmts as _ws
+    n_g = 0
+    for g in ctx.repo.all_funcs("param.parameterized"):
+        if g.cls is None or g.cls.name not in ("Parameters", "_ParametersRestorer"):
+            continue
+        gcfg = None
+        for c in [x for x in ast.walk(g.node) if isinstance(x, ast.Call) and isinstance(x.func, ast.Attribute) and x.func.attr in ("update", "_update")
+                  and norm(x.func.value) in ("self_", "self._parameters")]:
+            n_g += 1
+            argnames = {x.id for a in list(c.args) + [k.value for k in c.keywords] for x in ast.walk(a) if isinstance(x, ast.Name)}
+            own = set(g.params)
+            if argnames and argnames <= own and all(isinstance(a, ast.Name) for a in list(c.args) + [k.value for k in c.keywords]):
+                ctx.ok("R08.g", g, c, "forwards the caller's own arguments (a user-driven assignment)")
+                continue
+            in_sync = any(isinstance(w, ast.With) and any(isinstance(i.context_expr, ast.Call) and norm(i.context_expr.func) == "_syncing" for i in w.items)
+                          and any(x is c for x in ast.walk(w)) for w in ast.walk(g.node))
+            hands_refs = any(isinstance(k, ast.keyword) and k.arg is None and "refs" in norm(k.value) for x in ast.walk(c) if isinstance(x, ast.Call) for k in x.keywords)
+            gcfg = gcfg or ctx.facts.cfg(g)
+            cn = [n for n in gcfg.live_nodes() if n.kind == "stmt" and n.ast is not None and any(x is c for x in ast.walk(n.ast))]
+            class_level = bool(cn) and any(t is True and norm(e) == "self_.self is None" for e, t in gcfg.conditions(cn[0]))
+            if in_sync or hands_refs or class_level:
+                ctx.ok("R08.g", g, c, "write-back %s" % ("inside `with _syncing`" if in_sync else "hands the saved references back" if hands_refs else "on the class-level branch"))
+            else:
+                ctx.fail("R08.g", g, c, "`%s` writes values back through the setter outside any `_syncing` scope and without the saved references: for a linked parameter the setter takes "
+                                        "the write-back for an override and removes the link, so the parameter silently stops following its source" % norm(c)[:70],
+                         key="%s::write-back-ends-link" % g.qualname, input="t = T(x=s.param.v); t.param.trigger('x'); s.v = 3 -> t.x keeps the old value")
+    ctx.require(n_g >= 5, "fewer than 5 internal update()/_update() call sites found (%d)" % n_g)
+
     # the scope that marks the sync's own writes must itself be exception safe
     # (an instance of R05.a/R05.b on the syncing set): a leaked marker makes every
     # later override look like a sync write, so the link never ends
